@@ -18,7 +18,9 @@ VARIABLES cfg, phase, src, pos, lex, seen, lastAt, idx, fidx, buf, out, errOut, 
 M == INSTANCE Run WITH DoubleOf <- TraceDoubleOf
 mvars == <<cfg, phase, src, pos, lex, seen, lastAt, idx, fidx, buf, out, errOut, errErr, result, opened, pulled, dispatched, faultHit>>
 
-CfgOf(r) == [valid |-> r.valid, policy |-> r.policy, mode |-> r.mode, onlyObj |-> r.onlyObj, files |-> r.files, stdin |-> r.stdin,
+\* records marked inexact (large inputs, pipelines the machine abstracts) do not feed the machine: it runs on an empty stdin
+CfgOf(r) == [valid |-> r.valid, policy |-> r.policy, mode |-> r.mode, onlyObj |-> r.onlyObj,
+             files |-> IF r.exact THEN r.files ELSE <<>>, stdin |-> IF r.exact THEN r.stdin ELSE <<>>,
              rfault |-> r.rfault, wfault |-> r.wfault, srcNo |-> 0]
 InitPrimed(c) ==
   /\ cfg' = c /\ phase' = "validate" /\ src' = 0 /\ pos' = 0 /\ lex' = M!LexInit /\ seen' = 0 /\ lastAt' = M!Start0 /\ idx' = 0 /\ fidx' = 0
@@ -56,7 +58,7 @@ nI == <<105>>  nF == <<102>>  nSL == <<115, 108>>  nSC == <<115, 99>>  nEL == <<
 CheckCtx(r) ==
   LET lines == RowLines(r.out)
       rows == [k \in 1..Len(lines) |-> R!StrictParse(lines[k])] \o <<>>
-      srcs == IF r.files = <<>> THEN <<r.stdin>> ELSE r.files
+      srcs == r.srcs
       \* the values each source holds (clean input): [vals, spans]
       refs == [s \in 1..Len(srcs) |-> R!StrictParseStream(srcs[s])] \o <<>>
       kept(s) == IF r.onlyObj THEN SelectSeq([k \in 1..Len(refs[s].vals) |-> k], LAMBDA k : refs[s].vals[k].t \in {"arr", "obj"})
@@ -76,7 +78,7 @@ CheckCtx(r) ==
             prevEnd == IF k = 1 THEN 0 ELSE OffsetOf(srcs[s], IntOf(RowField(rows[g - 1].v, nEL)), IntOf(RowField(rows[g - 1].v, nEC)))
         IN /\ IntOf(RowField(row, nI)) = g - 1
            /\ IntOf(RowField(row, nF)) = k - 1
-           /\ (IF r.files = <<>> THEN KeyIdx(row, nFN) = 0 ELSE KeyIdx(row, nFN) # 0 /\ RowField(row, nFN) = Str(r.names[s]))
+           /\ (IF r.names = <<>> THEN KeyIdx(row, nFN) = 0 ELSE KeyIdx(row, nFN) # 0 /\ RowField(row, nFN) = Str(r.names[s]))
            /\ FSame(refs[s].vals[vi], RowField(row, nV))
            /\ so >= 0 /\ so <= refs[s].spans[vi][1] - 1 /\ eo >= refs[s].spans[vi][2] - 1 /\ eo <= Len(srcs[s])      \* the range contains the value's text
            /\ (IF r.onlyObj THEN so >= prevEnd ELSE so = prevEnd)                                                      \* contiguous, no overlap
@@ -91,13 +93,13 @@ CheckCtx(r) ==
 CheckSame(r) == IF r.res # r.bres THEN Flag("MISMATCH", r.case, <<"result differs with the delivery:", r.res, r.bres>>)
                 ELSE IF r.out # r.base THEN Flag("MISMATCH", r.case, "stdout depends on how the input bytes are delivered")
                 ELSE IF r.err # r.berr THEN Flag("MISMATCH", r.case, "stderr depends on how the input bytes are delivered")
-                ELSE IF r.mode = "plain" /\ r.policy \in {"ignore", "stderr"} /\ r.res = "ok" /\ r.out # out THEN Flag("DRIFT", r.case, "machine stdout differs")
+                ELSE IF r.exact /\ r.mode = "plain" /\ r.policy \in {"ignore", "stderr"} /\ r.res = "ok" /\ r.out # out THEN Flag("DRIFT", r.case, "machine stdout differs")
                 ELSE TRUE
 RECURSIVE Cat(_, _)
 Cat(ss, i) == IF i > Len(ss) THEN <<>> ELSE ss[i] \o Cat(ss, i + 1)
 CheckFiles(r) == IF r.res # "ok" THEN Flag("MISMATCH", r.case, "run did not succeed")
                  ELSE IF r.out # Cat(r.parts, 1) THEN Flag("MISMATCH", r.case, "the output for f1..fn is not the concatenation of the outputs for each file alone")
-                 ELSE IF r.mode = "plain" /\ r.policy \in {"ignore", "stderr"} /\ r.out # out THEN Flag("DRIFT", r.case, "machine stdout differs")
+                 ELSE IF r.exact /\ r.mode = "plain" /\ r.policy \in {"ignore", "stderr"} /\ r.out # out THEN Flag("DRIFT", r.case, "machine stdout differs")
                  ELSE TRUE
 \* ---- C18
 CheckInvalid(r) == IF r.res \notin {"err", "cli"} THEN Flag("MISMATCH", r.case, <<"an invalid configuration was not rejected: result", r.res>>)
@@ -123,9 +125,11 @@ Check(r) == CASE r.kind = "fault" -> CheckFault(r) [] r.kind = "ctx" -> CheckCtx
 
 Init == l = 1 /\ M!Init0(CfgOf(Rec[1]))
 Step == /\ l <= Len(Rec) /\ ~M!Exited /\ M!Next /\ l' = l
-Consume == /\ l <= Len(Rec) /\ M!Exited /\ Check(Rec[l]) /\ l' = l + 1
-           /\ (l = Len(Rec) => PrintT("CONSUMED " \o ToString(l)))
+\* the primed variables are assigned first: TLC caches LET definitions only once the successor state is complete
+Consume == /\ l <= Len(Rec) /\ M!Exited /\ l' = l + 1
            /\ IF l < Len(Rec) THEN InitPrimed(CfgOf(Rec[l + 1])) ELSE UNCHANGED mvars
+           /\ Check(Rec[l])
+           /\ (l = Len(Rec) => PrintT("CONSUMED " \o ToString(l)))
 Next == Step \/ Consume
 Spec == Init /\ [][Next]_<<mvars, l>>
 =============================================================================
